@@ -7,3 +7,10 @@ HERE="$(pwd)"
 cd /repo
 GEVENT_LOOP=symex.vloop.VLoop PYTHONPATH="$HERE" PYTHONDONTWRITEBYTECODE=1 "$HERE/.venv/bin/python" -m pytest -q -p no:cacheprovider -p symex.vplugin test/scales > "$HERE/.selftest.log" 2>&1 || { tail -20 "$HERE/.selftest.log"; echo "selftest: repository tests fail on the virtual loop"; exit 1; }
 tail -1 "$HERE/.selftest.log"
+# differential validation of the environment models (struct, UTF-8, BytesIO, crc32 law, exact arithmetic) and of the
+# scheduling order of the virtual loop against the order recorded on the real libev loop
+cd "$HERE"
+for s in 0 1 2; do VERIF_SEED=$s PYTHONPATH="$HERE" "$HERE/.venv/bin/python" -m symex.selfcheck > /dev/null || { echo "selftest: model validation failed (seed $s)"; exit 1; }; done
+PYTHONPATH="$HERE" "$HERE/.venv/bin/python" -m symex.selfcheck loop | tail -1 || { echo "selftest: loop order differs on libev"; exit 1; }
+GEVENT_LOOP=symex.vloop.VLoop PYTHONPATH="$HERE" "$HERE/.venv/bin/python" -m symex.selfcheck loop > /dev/null || { echo "selftest: loop order differs on the virtual loop"; exit 1; }
+echo "selftest: models validated"
